@@ -2764,7 +2764,8 @@ pub fn freeze(env: &mut FreezeEnv, expr: &LocExpr) -> NRes<LocExpr> {
                                     match ty {
                                         ForIterationType::Normal => false,
                                         ForIterationType::Item => false,
-                                        ForIterationType::Declare => true, // thonk
+                                        // `for (...; y = e)` declares y like `<-` does
+                                        ForIterationType::Declare => false,
                                     }, /* declared_only */
                                 ));
                                 Ok(ForIteration::Iteration(
